@@ -1929,6 +1929,50 @@ theorem unslice_restitch_open (dfs : List TS) (ubs : List Int) (hlen : dfs.lengt
       rw [← hrt]; exact hFrows r hr
     rw [stitch_open_eq _ ubs M hS' hM' _ n false true rfl, e4]
 
+/-- **unslice_restitch_open_decreasing** - the DECREASING spelling of an unbounded last bound, `ub = [None, u_k-1 .. u_0]` with the
+    series in the matching order (`_is_non_decreasing` sets the leading `None` aside and reads the dates as decreasing): the stitched
+    frame is the frame of the increasing spelling `[u_0 .. u_k-1, None]`, `df_unslice` hands back one series per bound IN THE ORDER
+    GIVEN (the unbounded one FIRST, under `None`), and stitching those again with the same list gives the frame up to its all-NaN
+    rows.  At least two dates: `[None, d]` does not spell a direction. -/
+theorem unslice_restitch_open_decreasing (dfs : List TS) (ubs : List Int) (hlen : dfs.length = ubs.length + 1)
+    (htwo : 2 ≤ ubs.length) (hstrict : ubs.Pairwise (· < ·)) (hs : ∀ s ∈ dfs, s.Sorted) (n : Nat) :
+    ∃ F U, stitchO dfs.reverse Option.none (some (Option.none :: ubs.reverse.map some)) (some ['(', ']']) n = .ok (some F) ∧
+      stitchO dfs Option.none (some (ubs.map some ++ [Option.none])) (some ['(', ']']) n = .ok (some F) ∧
+      unsliceO F (Option.none :: ubs.reverse.map some) = .ok U ∧
+      U.map (·.1) = Option.none :: ubs.reverse.map some ∧
+      stitchO (U.map (·.2)) Option.none (some (Option.none :: ubs.reverse.map some)) (some ['(', ']']) n = .ok (some F.dropNaRows) := by
+  have hne : ubs ≠ [] := by intro h; rw [h] at htwo; simp at htwo
+  obtain ⟨F, U, e1, e2, e3, e4⟩ := unslice_restitch_open dfs ubs hlen hne hstrict hs n
+  have hD : (ubs.map some ++ [Option.none]).reverse = Option.none :: ubs.reverse.map some := by simp [List.map_reverse]
+  have hrne : ubs.reverse ≠ [] := by simpa using hne
+  have hdec : nonDecreasing ubs.reverse = false :=
+    decreasing_not_nonDecreasing _ (by simpa using htwo) (List.pairwise_reverse.mpr (hstrict.imp (fun h => h)))
+  have hinc : nonDecreasing ubs = true := pairwise_nonDecreasing _ (hstrict.imp (fun h => Int.le_of_lt h))
+  have h1 : directionO (Option.none :: ubs.reverse.map some) = .ok false := by
+    rw [directionO_leading_none _ hrne, hdec]
+  have h2 : directionO (Option.none :: ubs.reverse.map some).reverse = .ok true := by
+    rw [← hD, List.reverse_reverse, directionO_open ubs hne, hinc]
+  have hnd : (Option.none :: ubs.reverse.map some).Nodup := by
+    rw [← hD]
+    apply nodup_rev
+    show (ubs.map some ++ [Option.none]).Nodup
+    have : (ubs.map some ++ [Option.none]).Nodup := by
+      rw [List.nodup_append]
+      refine ⟨?_, by simp, ?_⟩
+      · exact List.Pairwise.map some (fun a b hab e => hab (Option.some.inj e)) (hstrict.imp (fun h => Int.ne_of_lt h))
+      · intro a ha b hb
+        rw [List.mem_singleton] at hb; subst hb
+        simp only [List.mem_map] at ha
+        obtain ⟨x, _, hx⟩ := ha
+        intro e; rw [e] at hx; cases hx
+    exact this
+  have hrr : (Option.none :: ubs.reverse.map some).reverse = ubs.map some ++ [Option.none] := by rw [← hD, List.reverse_reverse]
+  refine ⟨F, U.reverse, ?_, e1, ?_, ?_, ?_⟩
+  · rw [stitchO_reverse _ _ h1 h2, List.reverse_reverse, hrr, e1]
+  · rw [unsliceO_reverse F _ h1 h2 hnd, hrr, e2]; rfl
+  · rw [List.map_reverse, e3, hD]
+  · rw [stitchO_reverse _ _ h1 h2, hrr, List.map_reverse, List.reverse_reverse, e4]
+
 /-- the reviewer's input (v4 2.1): three series, bounds `[2, 4, None]`; the extended model stitches 7 rows, `df_unslice` files the
     unbounded series LAST (keys in the order of the bounds) and the re-stitch reproduces the frame; the decreasing spelling too -/
 def openSeries : List TS := [[(0, some 1), (1, some 2), (2, some 3), (3, some 4)], [(2, some 10), (3, some 20), (4, some 30), (5, some 40)],
